@@ -148,6 +148,9 @@ SOUP_TOKENS += [
 # operands without a size suffix that no encoding of the opcode can hold (or only a wider / narrower one can)
 SOUP_TOKENS += ["ldx 0x123456", "lda #0x123456", "rep #0x1234", "stz 0x123456,x", "lda 0x123456,y", "jmp 0x10", "lda 0x10,y", "pea 0x10", "jsr 0x123456", "bra 0x123456", "ldy #0x1234567", "sep #-1", "cpx 0x1000000", "W := 0x123456\nstz W,x\nlda W,y", "mvn 0x12,0x34", "brk 0x1234"]
 
+# parenthesised operands followed by an operator (the parser backtracks at the opening parenthesis), after other parentheses
+SOUP_TOKENS += ["lda.w (1+2)*2", "lda (0x10),y\nlda.w (3+4)*2", "m(1)\nlda.w (5)+1", "lda.w (1+2)*2\nlda.w (3+4)*2", ".macro p(a) {\n lda.w (a+1)*2\n}\np(1)\np(2)", "lda.b #(1+2)*3", "lda (1)", "lda.w ((1+2))*2", "sta.l (0x7e0000)+2,x"]
+
 # file directives whose quoted path contains characters shells and path helpers expand
 SOUP_TOKENS += [".incbin 'data$.bin'", ".include 'lib$UNSET.s'", ".include '$HOME/x.s'", ".table '~/x.tbl'", ".include_ips '$HOME/p.ips', 0", ".incbin '%TEMP%\\x.bin'", ".include '~'", ".incbin '${X}.bin'", ".include '$'", ".incbin '$$'", ".table '$(x).tbl'", ".include '`x`.s'"]
 
